@@ -71,6 +71,12 @@ pub trait Family: 'static + Sized {
     fn new_locals(cfg: &Self::Cfg, t: usize) -> Self::Locals;
     /// Called by the spawning thread right after `thread::spawn` returned the child's handle.
     fn on_spawn(_objs: &Self::Objs, _child: usize, _thread: &shuttle::thread::Thread) {}
+    /// A value moved into the closure / future of child `child` at spawn time (dropped when the
+    /// child's closure returns — or when a closure that never ran is destroyed).  C14 uses it to
+    /// see whether the closure of a never-scheduled task of an abandoned execution is destroyed.
+    fn capture(_objs: &Self::Objs, _child: usize) -> Option<Box<dyn std::any::Any + Send>> {
+        None
+    }
     /// Called by every thread when it starts running (inside the Shuttle task).
     fn on_start(_objs: &Self::Objs, _t: usize) {}
     /// Async family: every program thread is a task (`future::spawn`), main runs under `block_on`.
@@ -382,6 +388,7 @@ impl Drop for FutureDropLog {
 pub struct Logged<Fu> {
     fut: Fu,
     _g: FutureDropLog,
+    _cap: Option<Box<dyn std::any::Any + Send>>,
 }
 impl<Fu: std::future::Future> std::future::Future for Logged<Fu> {
     type Output = Fu::Output;
@@ -425,6 +432,7 @@ async fn run_task<F: Family>(ctx: Arc<SS<Ctx<F>>>, t: usize) -> u32 {
                 let fut = SendFut(Logged {
                     fut: run_task::<F>(ctx2, ch),
                     _g: FutureDropLog(ch),
+                    _cap: F::capture(&c.objs, ch),
                 });
                 // "-alt" sets: the sibling entry points (spawn_local, AbortHandle)
                 let h = if alt_api() { shuttle::future::spawn_local(fut) } else { shuttle::future::spawn(fut) };
@@ -492,7 +500,9 @@ fn run_ops<F: Family>(
             GOp::Spawn(ch) => {
                 let ctx2 = ctx.clone();
                 let ch = *ch;
+                let cap = F::capture(&c.objs, ch);
                 let body = move || {
+                    let _cap = cap;
                     let ctx2 = ctx2;
                     run_thread::<F>(ctx2, ch)
                 };
